@@ -229,17 +229,18 @@ def run(ctx):
         return out
 
     def mech(a, b):
-        """mechanism tag of an unsound True (stable, computed from the structure of the pair)"""
-        if (inner_controls(a) & set(b.wires)) or (inner_controls(b) & set(a.wires)):
-            return "unsound:wrapped-controlled"  # Adjoint/Pow wrapper hides control_wires: a control wire is looked up as a target wire
+        """mechanism tag of an unsound True (stable, computed from the structure of the pair as is_commuting sees it, i.e. after simplify)"""
         def simp(o):
             try:
                 with qp.QueuingManager.stop_recording():
-                    return qp.simplify(o)  # is_commuting looks names up after simplification (e.g. PSWAP(2πk) -> SWAP)
+                    return qp.simplify(o)  # is_commuting looks names up after simplification (e.g. PSWAP(2πk) -> SWAP, Adjoint(CSWAP) -> CSWAP)
             except Exception:  # noqa: BLE001
                 return o
 
-        na, nb = sorted([base_name(simp(a)), base_name(simp(b))])
+        sa, sb = simp(a), simp(b)
+        if (inner_controls(sa) & set(sb.wires)) or (inner_controls(sb) & set(sa.wires)):
+            return "unsound:wrapped-controlled"  # Adjoint/Pow wrapper hides control_wires: a control wire is looked up as a target wire
+        na, nb = sorted([base_name(sa), base_name(sb)])
         if na in SWAPS and nb in SWAPS:
             return "unsound:swap-group"  # SWAP_GROUP members are treated as commuting on ANY target overlap
         ta, tb = sorted([a.name, b.name])
